@@ -43,7 +43,9 @@ pub fn build_specs(c: &ListCase) -> Vec<MsgSpec> {
                     h.seq = serial as u16;
                     if *timestamped {
                         h.date = h.date.max(1);
-                        h.time = (h.time % 80_000_000 + serial * 37) % 86_400_000;
+                        // times are NOT monotone within a run (a group's end time is its last member's time,
+                        // not the latest time seen)
+                        h.time = (h.time % 80_000_000 + (serial.wrapping_mul(2_654_435_761) >> 8) % 6_000_000) % 86_400_000;
                         if h.date == 1 && h.time == 0 {
                             h.time = 1;
                         }
@@ -100,6 +102,9 @@ fn model_groups(msgs: &[Message]) -> Vec<(Key, usize, usize)> {
 
 pub fn check_summary(msgs: &[Message]) -> Check {
     let summary = no_panic("summarize::messages", || summarize::messages(msgs))?;
+    // reuse: summarising the same list again gives an equal summary
+    let second = no_panic("summarize::messages", || summarize::messages(msgs))?;
+    ensure!(second == summary, "summary:second-call-differs", "summarising the same list twice gives different summaries");
     let model = model_groups(msgs);
     let groups = &summary.message_groups;
 
